@@ -101,6 +101,8 @@ def parsePairs (s : String) : Option (List (Nat × Nat)) :=
 
 def monitor (op obs : String) : String :=
   let o := splitWs obs
+  if obs.startsWith "PANIC" then "FAIL implementation-panicked" else
+  if obs = "HANG" then "FAIL implementation-hung" else
   match splitWs op with
   | ["conv", seed, idx, _key] =>
     match seed.toNat?, idx.toNat?, (field o "k").bind String.toNat?, (field o "rt").bind String.toNat? with
